@@ -112,9 +112,9 @@ func Run(tier string, seed uint64, modelPath, repo string, out *res.Result) erro
 	defer m.Close()
 	render.Quiet()
 	r := rng.New(seed)
-	nPath, nArc, nShape, nVB, nUse, nRef, nMal := 14000, 6000, 5000, 4000, 2500, 60, 2500
+	nPath, nArc, nShape, nVB, nUse, nRef, nMal, nMulti := 14000, 6000, 5000, 4000, 2500, 60, 2500, 1500
 	if tier == "thorough" {
-		nPath, nArc, nShape, nVB, nUse, nRef, nMal = 700000, 300000, 150000, 120000, 60000, 400, 80000
+		nPath, nArc, nShape, nVB, nUse, nRef, nMal, nMulti = 700000, 300000, 150000, 120000, 60000, 400, 80000, 50000
 	}
 	out.Rule = "paths: random command lists of the SVG path grammar (moveto first, 1-9 commands, 1-4 argument groups each, dyadic coordinates k/4..k/16) " +
 		"printed with random number syntaxes (.5, 2.5e2, 25e-1, 2.5E2, 2.5e+2, trailing dot, +) and separators (space, comma, newline, tab, none where the grammar allows); " +
@@ -122,7 +122,7 @@ func Run(tier string, seed uint64, modelPath, repo string, out *res.Result) erro
 		"samples of every cubic satisfy the ellipse equation within 1e-4 (5e-4 for the one-cubic-per-quarter curves of rect/circle/ellipse) and sweep the angle the flags select; " +
 		"shapes: all six basic shapes with all geometry attributes (unitless/px/%), tolerance 2^-20 on the Bezier-constant products; " +
 		"viewbox: viewport x viewBox x 9 alignments x meet/slice/none on the root and on a nested svg, 1 in 10 with a malformed preserveAspectRatio (no crash, model-equal), tolerance 2^-20*max(1,|v|,W,H); " +
-		"use: random g/defs/use graphs with missing and cyclic references; refs: cyclic and missing marker/clip-path/mask/pattern/gradient references in a child process (clip-path and mask graphs also compared with the guard model); corpus: minimal inputs of the repaired defects first; " +
+		"multipath: 2-4 <path> elements in one image, later ones mostly starting with a relative moveto (shared parser object); use: random g/defs/use graphs with missing and cyclic references; refs: cyclic and missing marker/clip-path/mask/pattern/gradient references in a child process (clip-path and mask graphs also compared with the guard model); corpus: minimal inputs of the repaired defects first; " +
 		"malformed: byte mutations of valid paths (no crash; parse error or model-equal output). " +
 		"non-trivial = path has >= 3 commands or a multi-group command / shape draws something / viewBox differs from the viewport / graph contains a use; distinct by full input text"
 	fonts, err := render.NewFonts(repo)
@@ -136,6 +136,12 @@ func Run(tier string, seed uint64, modelPath, repo string, out *res.Result) erro
 		return err
 	}
 	if err := runPaths(m, r.Sub(), nArc, true, fonts, out); err != nil {
+		return err
+	}
+	if err := runRadii(m, r.Sub(), nMulti/3, out); err != nil {
+		return err
+	}
+	if err := runMultiPath(m, r.Sub(), nMulti, out); err != nil {
 		return err
 	}
 	if err := runMalformed(m, r.Sub(), nMal, out); err != nil {
@@ -154,6 +160,8 @@ func Run(tier string, seed uint64, modelPath, repo string, out *res.Result) erro
 		return err
 	}
 	out.ModelCalls = m.N
+	out.Dist["arc:judged-on-scaled-ellipse(radii too small for the chord)"] = scaledArcs
+	out.Dist["arc:judged-on-given-ellipse"] = unscaledArcs
 	out.Notes = append(out.Notes, fmt.Sprintf("largest radial deviation from the ellipse measured on accepted curves: path arcs %.3g (tolerance %.0e), rounded rect corners %.3g, circle/ellipse %.3g (tolerance %.0e)",
 		devPath, pathArcTol, devRect, devEllipse, shapeArcTol))
 	return nil
@@ -389,7 +397,8 @@ func runMalformed(m *mp.Model, r *rng.R, n int, out *res.Result) error {
 			}
 		}
 		d := string(b)
-		svgSrc := `<svg><path d="` + d + `"/></svg>`
+		// a sibling after the path: an element in error is skipped, the rest of the image is still rendered
+		svgSrc := `<svg><path d="` + d + `"/><rect width="7" height="5"/></svg>`
 		out.Count(svgSrc, true)
 		dr := drawSVG(svgSrc, 200, 200)
 		if !dr.oc.OK() {
@@ -406,15 +415,24 @@ func runMalformed(m *mp.Model, r *rng.R, n int, out *res.Result) error {
 		}
 		implErr := errClass(dr.err)
 		impl := implOps(dr.evs, false)
+		sibling := false
+		for _, e := range dr.evs {
+			if e.Op == "Rectangle" && len(e.F) == 4 && e.F[2] == 7 && e.F[3] == 5 {
+				sibling = true
+			}
+		}
+		if implErr != "" || !sibling {
+			out.Add(res.Finding{Kind: "judge", Op: "judge:path-malformed", Input: svgSrc, Impl: fmt.Sprint(implErr, " ", opsString(impl)), Reason: "a path in error must be skipped and the rest of the image still rendered", Seed: caseSeed})
+			continue
+		}
 		bad := ""
 		switch {
-		case model.ok != (implErr == ""):
-			bad = "error/ok differs"
 		case !model.ok:
-			if model.errK != implErr {
-				bad = "different error"
+			// the element in error is skipped (warning logged): nothing of it is drawn
+			if len(impl) != 0 {
+				bad = "model reports an error, implementation draws the path"
 			}
-			out.Hit("malformed:error")
+			out.Hit("malformed:error-element-skipped")
 		default:
 			// mutated numbers leave the exactness domain: relative tolerance 2^-20
 			md := cmpMode{lineTol: tol20, cubicTol: tol20}
